@@ -33,31 +33,40 @@ def rule_a(ctx):
     cmps = list(b.calls("^std::cmp::Ord::cmp$"))
     tw = list(b.calls("^std::cmp::Ordering::then_with$"))
     rv = list(b.calls("^std::cmp::Ordering::reverse$"))
-    ok = len(cmps) == 1 and len(tw) == 1 and len(rv) == 1
-    ctx.ob("cmp|shape", ok, "Item::cmp is key.cmp().then_with(..).reverse()", cmps + tw + rv)
+    ok = len(cmps) == 1 and len(tw) == 1 and len(rv) <= 1
+    ctx.ob("cmp|shape", ok, "Item::cmp is one key comparison refined by then_with(epoch comparison), reversed once (by .reverse() or by comparing other with self)", cmps + tw + rv)
     if ok:
-        c, t, r = cmps[0], tw[0], rv[0]
-        a0 = b.origins(c.args()[0], c)
-        a1 = b.origins(c.args()[1], c)
-        ctx.ob("cmp|key-first", a0 == frozenset([("proj", ("arg", 1), ("f", "key"))]) and a1 == frozenset([("proj", ("arg", 2), ("f", "key"))]),
-               "the primary comparison is self.key.cmp(&other.key)", [c])
+        c, t = cmps[0], tw[0]
+
+        def orient(body, site, field, resolved=False):
+            get = (lambda op: P.resolved_origins(body, op, site)) if resolved else (lambda op: body.origins(op, site))
+            x0, x1 = get(site.args()[0]), get(site.args()[1])
+            if x0 == frozenset([("proj", ("arg", 1), ("f", field))]) and x1 == frozenset([("proj", ("arg", 2), ("f", field))]):
+                return "self"
+            if x0 == frozenset([("proj", ("arg", 2), ("f", field))]) and x1 == frozenset([("proj", ("arg", 1), ("f", field))]):
+                return "other"
+            return None
+        ko = orient(b, c, "key")
+        ctx.ob("cmp|key-first", ko is not None, "the primary comparison is between self.key and other.key", [c])
         ctx.ob("cmp|then-with-on-key-ordering", b.origins(t.args()[0], t) == frozenset([("call", c.b, "std::cmp::Ord::cmp")]),
                "then_with refines the key ordering", [t])
-        ctx.ob("cmp|reversed-once", b.origins(r.args()[0], r) == frozenset([("call", t.b, "std::cmp::Ordering::then_with")]) and
-               all(x.is_term and x.key() == r.key() for x in K.ret_assigns(b)),
-               "the result is the reverse of the refined ordering (max-heap used as a min-heap)", [r])
         # the tie-breaker closure
-        kids = P.children(b)
-        ok2 = False
-        for cb in kids:
+        eo = None
+        for cb in P.children(b):
             cc = list(cb.calls("^std::cmp::Ord::cmp$"))
-            if len(cc) == 1:
-                x0 = P.resolved_origins(cb, cc[0].args()[0], cc[0])
-                x1 = P.resolved_origins(cb, cc[0].args()[1], cc[0])
-                if x0 == frozenset([("proj", ("arg", 1), ("f", "epoch"))]) and x1 == frozenset([("proj", ("arg", 2), ("f", "epoch"))]) and \
-                        all(r_.is_term and r_.key() == cc[0].key() for r_ in K.ret_assigns(cb)):
-                    ok2 = True
-        ctx.ob("cmp|tie-break-epoch", ok2, "ties are broken by self.epoch.cmp(&other.epoch) (FIFO among equal keys)", [t])
+            if len(cc) == 1 and all(r_.is_term and r_.key() == cc[0].key() for r_ in K.ret_assigns(cb)):
+                eo = orient(cb, cc[0], "epoch", resolved=True)
+        ctx.ob("cmp|tie-break-epoch", eo is not None and eo == ko, "ties are broken by the epoch comparison, in the same direction as the keys (FIFO among equal keys)", [t])
+        if rv:
+            r = rv[0]
+            chain = b.origins(r.args()[0], r) == frozenset([("call", t.b, "std::cmp::Ordering::then_with")]) and \
+                all(x.is_term and x.key() == r.key() for x in K.ret_assigns(b))
+            okr = chain and ko == "self"
+        else:
+            chain = all(x.is_term and x.key() == t.key() for x in K.ret_assigns(b))
+            okr = chain and ko == "other"
+        ctx.ob("cmp|reversed-once", okr,
+               "the result is the reverse of the (key, epoch) ordering exactly once: self-with-other followed by .reverse(), or other-with-self (max-heap used as a min-heap)", rv or [t])
     pb = ctx.body("<util::priority_queue::Item as std::cmp::PartialOrd>::partial_cmp")
     if pb:
         cs = list(pb.calls("^std::cmp::Ord::cmp$"))
